@@ -51,23 +51,20 @@ def conv_int_grey(s):
     m = re.fullmatch(r"([+-]?)(.*)", t, re.S)
     sign, body = m.group(1), m.group(2)
     if s != t or sign == "+" or (sign == "-" and re.fullmatch(r"0[xXbB]?[0-9a-fA-F]*", body)):
-        # leading blanks, explicit plus, sign before a prefix: whatever strtol(base) yields, if it consumes everything
-        for base in (8, 10, 16, 2):
-            try:
-                b2 = body
-                if base == 16 and b2[:2] in ("0x", "0X"):
-                    b2 = b2[2:]
-                if base == 2 and b2[:2] in ("0b", "0B"):
-                    b2 = b2[2:]
-                if b2 and re.fullmatch(r"[0-9a-fA-F]+", b2):
-                    v = int(b2, base)
-                    v = -v if sign == "-" else v
-                    if LONG_MIN <= v <= LONG_MAX:
-                        vals.add(v)
-            except ValueError:
-                pass
-        if vals:
-            return ("grey", vals)
+        # leading blanks, explicit plus, sign before a prefix: whether such a token is a numeral at all is not decided by
+        # the statement; if it is taken for one, its value is what the C library's strtol() with automatic radix reads
+        v = None
+        if re.fullmatch(r"0[xX][0-9a-fA-F]+", body):
+            v = int(body[2:], 16)
+        elif re.fullmatch(r"0[0-7]*", body):
+            v = int(body, 8) if len(body) > 1 else 0
+        elif re.fullmatch(r"[1-9][0-9]*", body):
+            v = int(body)
+        if v is not None:
+            v = -v if sign == "-" else v
+            if LONG_MIN <= v <= LONG_MAX:
+                return ("grey", {v})
+            return ("bad",)
     if re.fullmatch(r"0x0[xX][0-9a-fA-F]+", s):
         return ("grey", {int(s[4:], 16)})
     return ("bad",)
@@ -168,6 +165,8 @@ class Model:
         self.cbseq = 0
         self.diags = 0                # diagnostics the text must produce although accepted (deprecated options)
         self.grey = False
+        self.grey_other = False
+        self.grey_num = 0
         self.root = self.new_section("root", None, schema, flags, init_phase=True)
 
     # ---- store -------------------------------------------------------------------------
@@ -249,7 +248,11 @@ class Model:
             return c[1]
         if c[0] == "grey":
             self.grey = True
-            o.grey = True
+            if c[1] is None:
+                o.grey = True
+                self.grey_other = True
+            else:
+                self.grey_num += 1      # acceptance undecided, but if accepted the value is one of c[1]
             return ("grey", c[1])
         raise Reject(tok, "invalid %s value %r" % (k, text))
 
@@ -276,6 +279,8 @@ class Model:
         self.diags = 0
         self.marks = []
         self.grey = False
+        self.grey_other = False
+        self.grey_num = 0
         self.cur_file = filename
         toks = lex(text, self.env)
         self.stream = [(t, filename) for t in toks]
@@ -283,7 +288,8 @@ class Model:
         self.include_depth = 0
         try:
             self.body(self.root, 0)
-            return {"accept": True, "grey": self.grey, "diags": self.diags}
+            return {"accept": True, "grey": self.grey, "diags": self.diags,
+                    "grey_only_numerals": self.grey and self.grey_num > 0 and not self.grey_other}
         except Reject as r:
             t = r.tok
             fil = None
@@ -303,6 +309,7 @@ class Model:
         t = self.stream[self.pos][0]
         if t.grey and t.kind == "EOF":
             self.grey = True
+            self.grey_other = True
         if t.kind not in ("EOF", "ERR"):
             self.pos += 1
         elif t.kind == "EOF" and self.pos + 1 < len(self.stream):
@@ -360,6 +367,7 @@ class Model:
             o = sec.find(name) if (name and "|" not in name and "=" not in name) else None
             if name and ("|" in name or "=" in name):
                 self.grey = True          # names are resolved through the path syntax: not defined by the language
+                self.grey_other = True
             if o is None:
                 if sec.flags & F_IGNORE_UNKNOWN:
                     pending = None
@@ -384,6 +392,7 @@ class Model:
                     title = tt.val
                     if tt.grey:
                         self.grey = True
+                        self.grey_other = True
                 b = self.next_nc()
                 if b.kind != "{":
                     raise Reject(b, "missing opening brace")
@@ -530,6 +539,7 @@ class Model:
                     raise Reject(e, "end of input in unknown list", grey=True)
                 if e.kind not in ("STR", ",", "COMMENT"):
                     self.grey = True
+                    self.grey_other = True
         elif t.kind == "(":
             while True:
                 e = self.next()
@@ -539,6 +549,7 @@ class Model:
                     raise Reject(e, "end of input in unknown call", grey=True)
                 if e.kind not in ("STR", ",", "COMMENT"):
                     self.grey = True
+                    self.grey_other = True
         elif t.kind in ("{", "STR"):
             if t.kind == "STR":
                 b = self.next_nc()
